@@ -142,10 +142,11 @@ def main():
             pages.setdefault(op >> 4, []).append(op)
     for pg, ops in sorted(pages.items()):
         lo, hi = ops[0], ops[-1]
-        alts, pat, cases = alt_block("op", ops, "op_%02X c a h hop hint")
+        alts, pat, _ = alt_block("op", ops, "op_%02X c a h hop hint")
+        cases = "\n".join("  · obtain ⟨a', hs, hf⟩ := op_%02X c a h hop hint; exact ⟨_, a', by decide, hs, hf⟩" % o for o in ops)
         disp.append(f"""theorem page_{pg:X} (c : Core) (a : Arch) (h : AtFetch c a) (hint : c.pendInt = false) (op : Nat)
     (hr : {lo} ≤ op ∧ op ≤ {hi}) (hop : a.bus.read a.pc = BitVec.ofNat 8 op) :
-    ∃ n a', Isa.step a = some a' ∧ AtFetch (Core.iter n c) a' := by
+    ∃ n a', 0 < n ∧ Isa.step a = some a' ∧ AtFetch (Core.iter n c) a' := by
   have hc : {alts} := by omega
   rcases hc with {pat} <;> subst e
 {cases}
@@ -169,10 +170,11 @@ def main():
 {cases}
 """)
     ops = list(range(0xF0, 0x100))
-    alts, pat, cases = alt_block("op", ops, "pre_%02X c a h hop")
+    alts, pat, _ = alt_block("op", ops, "pre_%02X c a h hop")
+    cases = "\n".join("  · obtain ⟨hs, hp⟩ := pre_%02X c a h hop; exact ⟨_, by decide, hs, hp⟩" % o for o in ops)
     disp.append(f"""theorem prefix_any (c : Core) (a : Arch) (h : AtFetch c a) (op : Nat)
     (hr : 240 ≤ op ∧ op ≤ 255) (hop : a.bus.read a.pc = BitVec.ofNat 8 op) :
-    ∃ n, AtSecond (Core.iter n c) (Isa.operand {{ a with pc := a.pc + 1 }} (op / 4 % 4) (op % 4)).1
+    ∃ n, 0 < n ∧ AtSecond (Core.iter n c) (Isa.operand {{ a with pc := a.pc + 1 }} (op / 4 % 4) (op % 4)).1
       (Isa.operand {{ a with pc := a.pc + 1 }} (op / 4 % 4) (op % 4)).2.1 ∧ (Core.iter n c).pendInt = c.pendInt := by
   have hc : {alts} := by omega
   rcases hc with {pat} <;> subst e
